@@ -231,7 +231,8 @@ func (b *Header) UnmarshalJSON(data []byte) error {
 		}
 		b.PrevStateRoot = *aux.PrevStateRoot
 	}
-	if !aux.Hash.Equals(b.Hash()) {
+	b.createHash() // The receiver can have a hash of its previous contents cached.
+	if !aux.Hash.Equals(b.hash) {
 		return errors.New("json 'hash' doesn't match block hash")
 	}
 	return nil
